@@ -21,6 +21,10 @@ package genesis
 //@   property C18
 //@   observe v := call Validate
 //@   ensures [validated] err == nil ==> v.count == 1 && v.res0 == nil && GenesisOK(g)
+// ... and what is validated and returned is the decoded document as it is: nothing is filled in or adjusted on
+// the way (a document that Validate refuses is refused, whatever a default might make of it)
+//@   observe um := call Unmarshal
+//@   ensures [returns-the-decoded-document] err == nil ==> um.count == 1 && um.res0 == nil && g == um.arg1out && v.arg0 == um.arg1out
 
 // Saving writes the JSON encoding of exactly this genesis, replacing the file as a whole
 //@ func (g Genesis) Save(genesisPath) (err)
